@@ -2,12 +2,14 @@ package main
 
 import (
 	"os"
+	"reflect"
 	"runtime"
 	"strings"
 	"sync"
 	"sync/atomic"
 	"time"
 
+	"github.com/IrineSistiana/mosproxy/internal/cache"
 	"github.com/IrineSistiana/mosproxy/verif/internal/racelog"
 )
 
@@ -99,3 +101,49 @@ func startLagMonitor() *lagMonitor {
 func (m *lagMonitor) Max() time.Duration { return time.Duration(m.max.Load()) }
 func (m *lagMonitor) Stop()              { close(m.stop) }
 func (m *lagMonitor) overloaded() bool   { return m.Max() > 300*time.Millisecond }
+
+// mcStore calls MemoryCache.Store. The arguments are bound by type when the parameter list is not
+// the pinned one (key = first byte slice, value = second, stored/expire = the time.Time parameters
+// in order, a time.Duration = time left until expire, bool = set-if-absent), so that a refactoring
+// of this internal signature does not leave the harness without a build - and the change without a verdict.
+func mcStore(mc *cache.MemoryCache, k []byte, stored, expire time.Time, v []byte, nx bool) {
+	if s, ok := any(mc).(interface {
+		Store(k []byte, storedTime, expireTime time.Time, v []byte, setNX bool)
+	}); ok {
+		s.Store(k, stored, expire, v, nx)
+		return
+	}
+	fn := reflect.ValueOf(mc).MethodByName("Store")
+	if !fn.IsValid() {
+		panic("harness: MemoryCache has no Store method any more")
+	}
+	t := fn.Type()
+	args := make([]reflect.Value, t.NumIn())
+	nBytes, nTimes := 0, 0
+	for i := range args {
+		p := t.In(i)
+		switch {
+		case p.Kind() == reflect.Slice && p.Elem().Kind() == reflect.Uint8:
+			b := k
+			if nBytes > 0 {
+				b = v
+			}
+			nBytes++
+			args[i] = reflect.ValueOf(b).Convert(p)
+		case p == reflect.TypeOf(time.Time{}):
+			tm := stored
+			if nTimes > 0 || t.NumIn() < 5 {
+				tm = expire
+			}
+			nTimes++
+			args[i] = reflect.ValueOf(tm)
+		case p == reflect.TypeOf(time.Duration(0)):
+			args[i] = reflect.ValueOf(time.Until(expire))
+		case p.Kind() == reflect.Bool:
+			args[i] = reflect.ValueOf(nx)
+		default:
+			panic("harness: MemoryCache.Store has a parameter of type " + p.String() + " the harness cannot bind")
+		}
+	}
+	fn.Call(args)
+}
